@@ -80,14 +80,16 @@ def r2_conflicts_are_errors(ctx):
     for op in TRY_FAMILY + list(PANICKING):
         fn = F.fn(R + op)
         for placement in c01.PLACEMENTS:
-            for conflict in (False, True):
+            for conflict in (False, True, "innermost"):
+                if conflict == "innermost" and len(c01.HOLDERS[placement]) < 2:
+                    continue
                 prims, rets, ends, paths = c01.placement_eval(F, fn, placement, conflict=conflict, want_paths=True)
                 n += 1
-                inst = "%s/%s" % (placement, "conflict" if conflict else "free")
+                inst = "%s/%s" % (placement, "only-the-visible-cell-borrowed" if conflict == "innermost" else "conflict" if conflict else "free")
                 diverging = [p for p in paths if p.end in ("panic", "diverge")]
                 if op in TRY_FAMILY:
                     ctx.check(not diverging and "limit" not in ends, "C02.R2", fn.key, inst + ":no-panic",
-                              "%s can panic/diverge with T %s and the cell %s" % (op, c01.PLACEMENT_TEXT[placement], "borrowed" if conflict else "free"), loc=fn.loc())
+                              "%s can panic/diverge with T %s and the cell %s" % (op, c01.PLACEMENT_TEXT[placement], "of the innermost holder borrowed (the shadowed ones free)" if conflict == "innermost" else "borrowed" if conflict else "free"), loc=fn.loc())
                 else:
                     # a panic may only come through StateError::panic
                     bad = []
